@@ -47,29 +47,34 @@ NumArith(op, a, b) == CASE op = "+" -> a + b [] op = "-" -> a - b [] op = "*" ->
                         [] op = "/" -> TDiv(a, b) [] op = "%" -> TMod(a, b)
 
 (* A value the language does not define: division or remainder by zero.     *)
-Undef == [ty |-> "undef", s |-> <<>>, n |-> 0, b |-> FALSE]
+UndefBy(why) == [ty |-> "undef", s |-> <<>>, n |-> 0, b |-> FALSE, why |-> why]
+Undef == UndefBy("divzero")
+UndefOp == UndefBy("optype")        \* operator applied to a dynamic type the table does not list
 IsUndef(v) == v.ty = "undef"
 
 (* the documented operator table: the left operand's type selects the       *)
 (* operation, the right operand is coerced to it                            *)
 BinOp(op, l, r) ==
-  IF IsUndef(l) \/ IsUndef(r) THEN Undef
+  IF IsUndef(l) THEN l ELSE IF IsUndef(r) THEN r
   ELSE CASE l.ty = "s" ->
          IF op = "+" THEN VS(ToS(l) \o ToS(r))
          ELSE IF op \in CmpOps THEN VB(StrCmp(op, ToS(l), ToS(r)))
+         ELSE IF op \in BoolOps \/ r.ty # "n" THEN UndefOp
          ELSE IF op \in {"/", "%"} /\ ToN(r) = 0 THEN Undef
          ELSE VN(NumArith(op, ToN(l), ToN(r)))          \* string coerced: - * / % with a number on the right
        [] l.ty = "b" ->
          IF op = "and" THEN VB(l.b /\ ToB(r))
          ELSE IF op = "or" THEN VB(l.b \/ ToB(r))
+         ELSE IF op \in ArithOps THEN UndefOp
          ELSE VB(NumCmp(op, B2N(l.b), B2N(ToB(r))))
        [] l.ty = "n" ->
          IF op \in CmpOps THEN VB(NumCmp(op, l.n, ToN(r)))
+         ELSE IF op \in BoolOps THEN UndefOp
          ELSE IF op \in {"/", "%"} /\ ToN(r) = 0 THEN Undef
          ELSE VN(NumArith(op, l.n, ToN(r)))
 
 UnOp(op, v) ==
-  IF IsUndef(v) THEN Undef
+  IF IsUndef(v) THEN v
   ELSE CASE op = "not"  -> VB(~ToB(v))
          [] op = "head" -> LET s == ToS(v) IN VS(IF s = <<>> THEN <<>> ELSE <<s[1]>>)
          [] op = "tail" -> LET s == ToS(v) IN VS(IF Len(s) <= 1 THEN <<>> ELSE Tail(s))
@@ -205,13 +210,13 @@ TransformText(stmts, env) ==
   LET r == RunProcess(stmts, env)
   IN  IF r.st = "ret" THEN [ok |-> TRUE, s |-> ToS(r.val), why |-> "ret"]
       ELSE IF r.st = "next" THEN [ok |-> TRUE, s |-> TrueS, why |-> "noreturn"]
-      ELSE [ok |-> FALSE, s |-> <<>>, why |-> r.st]
+      ELSE [ok |-> FALSE, s |-> <<>>, why |-> IF r.st = "undef" THEN r.val.why ELSE r.st]
 (* A predicate holds unless it returns a false value; no `return` = true    *)
 PredicateHolds(stmts, env) ==
   LET r == RunProcess(stmts, env)
   IN  IF r.st = "ret" THEN [ok |-> TRUE, b |-> ToB(r.val), why |-> "ret"]
       ELSE IF r.st = "next" THEN [ok |-> TRUE, b |-> TRUE, why |-> "noreturn"]
-      ELSE [ok |-> FALSE, b |-> FALSE, why |-> r.st]
+      ELSE [ok |-> FALSE, b |-> FALSE, why |-> IF r.st = "undef" THEN r.val.why ELSE r.st]
 
 (* ---------------------------------------------------------- static types *)
 (* documented typing rules; "e" = error                                     *)
